@@ -349,7 +349,7 @@ def flows_from_run(r, script, calls, sol):
 
 # --------------------------------------------------------------------------- the check
 def run(ck):
-    proof_ok, failing = ck.proof_stage('MpVerif.C04.Props', 'MpVerif/C04/Props.lean', 'C04_', ['MpVerif/C04/*.lean'], expect_min=19)
+    proof_ok, failing = ck.proof_stage('MpVerif.C04.Props', 'MpVerif/C04/Props.lean', 'C04_', ['MpVerif/C04/*.lean'], expect_min=21)
     ck.log('proof stage: ok=%s failing=%s' % (proof_ok, failing[:8]))
     if ck.tier == 'thorough' and proof_ok:
         bad = ck.leanchecker(['MpVerif.C04.Props'])
@@ -380,7 +380,8 @@ def run(ck):
     for c in cases:
         oracle(ck, c, st)
         certificates(ck, c, st)
-    sanitizer_stream(ck, cases, st)
+    if not os.environ.get('C04_NO_SANITIZER'):      # (used when trying hand mutants: saves building the ASan driver of the mutated tree)
+        sanitizer_stream(ck, cases, st)
     verdicts(ck, cases, st, proof_ok, failing)
 
 
@@ -1100,6 +1101,8 @@ def certificates(ck, c, st):
 
 
 ASAN_FLAGS = ('-O1', '-g', '-fsanitize=address,undefined', '-fno-sanitize-recover=all')
+# mp's CRTP converters static_cast<Impl*>(this) inside base-class constructors: UBSan's vptr check reports that (not a C04 matter)
+UBSAN_SUPP = 'vptr_check:*\nvptr:*\n'
 
 
 def classify_sanitizer(err):
@@ -1115,6 +1118,8 @@ def classify_sanitizer(err):
     if any('RangeCon2Slack' in f and 'PresolveSolutionEntry' in f for f in frames[:12]) or \
             (any('ComputeLowerSlack' in f or 'ComputeValue' in f for f in frames[:6]) and any('RangeCon2Slack' in f for f in frames[:14])):
         return 'pre:sol:quadrange-slack-reads-out-of-bounds', frames[:8]
+    if kind == 'heap-buffer-overflow' and any('SolutionChecker' in f for f in frames[:8]) and any('PostsolveSolution' in f for f in frames[:12]):
+        return 'post:sol:short-primal-vector-solution-checker-reads-out-of-bounds', frames[:8]
     fn = next((f for f in frames if 'mp::' in f), frames[0] if frames else '?')
     fn = re.sub(r'<.*', '', fn).split('(')[0]
     return 'sanitizer:%s:%s' % (kind, fn[-60:]), frames[:8]
@@ -1124,13 +1129,17 @@ def sanitizer_stream(ck, cases, st):
     """re-run generated cases (short / empty / long vectors first) and a directed model on an ASan+UBSan build of the
     same driver: every transfer must stay inside its buffers"""
     exe = recsolver.build(ck, flags=ASAN_FLAGS, name='recsolver_asan')
+    supp = os.path.join(BUILD, 'c04', 'ubsan.supp')
+    os.makedirs(os.path.dirname(supp), exist_ok=True)
+    open(supp, 'w').write(UBSAN_SUPP)
+    san_env = {'UBSAN_OPTIONS': 'suppressions=%s:print_stacktrace=1' % supp}
     todo = [c for c in cases if not c.problem]
     todo.sort(key=lambda c: -sum(1 for k in ('x', 'pi', 'varstt', 'constt', 'iisvar', 'iiscon')
                                  if c.script.get(k) is not None and len(c.script[k]) < (c.sizes[0] if k in ('x', 'varstt', 'iisvar') else c.sizes[1].get(CG_LIN, 0))))
     todo = todo[:(20 if ck.tier == 'quick' else 150)]
     nrun = 0
     for c in todo:
-        r = recsolver.run(exe, c.stub, options=c.options, accept=c.accept, script=c.stub + '.script', env=env_of(c, c.stub + '.calls'), timeout=300)
+        r = recsolver.run(exe, c.stub, options=c.options, accept=c.accept, script=c.stub + '.script', env=dict(env_of(c, c.stub + '.calls'), **san_env), timeout=300)
         nrun += 1
         if r['rc'] != 0 and ('Sanitizer' in r['err'] or 'runtime error' in r['err']):
             sig, frames = classify_sanitizer(r['err'])
@@ -1145,21 +1154,20 @@ def sanitizer_stream(ck, cases, st):
     y = m.var(0, 4)
     m.obj('min', {x: 1, y: 1})
     m.con(1, 9, {x: 1}, nl=('*', ('v', x), ('v', y)))
-    m.con(None, 6, {x: 1, y: 2})
     m.x0 = {x: 1, y: 2}
-    m.pi0 = {0: 1, 1: 1}
+    m.pi0 = {0: 1}
     stub = os.path.join(d, 'm')
     m.write(stub)
     c = Case()
     c.stub, c.model, c.accept, c.options, c.ismip, c.calls, c.script = stub, m, ['LinConLE', 'LinConEQ', 'LinConGE', 'QuadConLE', 'QuadConEQ', 'QuadConGE'], ['alg:start=1'], 0, [], {'code': 0}
-    r = recsolver.run(exe, stub, options=c.options, accept=c.accept, env=env_of(c), timeout=300)
+    r = recsolver.run(exe, stub, options=c.options, accept=c.accept, env=dict(env_of(c), **san_env), timeout=300)
     nrun += 1
     st.feat['sanitizer_runs'] = nrun
     if r['rc'] != 0 and ('Sanitizer' in r['err'] or 'runtime error' in r['err']):
         sig, frames = classify_sanitizer(r['err'])
         o = replay_obj(c)
         o.update({'frames': frames, 'stderr_tail': r['err'][-1500:], 'build': 'recsolver with ' + ' '.join(ASAN_FLAGS)})
-        ck.add_violation(sig, 'directed model (one quadratic range constraint x*y + x in [1,9], no linear range constraint, warm start): sanitizer report %s' % frames[:3], o, found_input=True)
+        ck.add_violation(sig, 'directed model (one quadratic range constraint x*y + x in [1,9], no linear constraint, warm start): sanitizer report %s' % frames[:3], o, found_input=True)
         st.feat['directed_quadrange_sanitizer_report'] = 1
     else:
         st.feat['directed_quadrange_sanitizer_report'] = 0
@@ -1295,8 +1303,21 @@ def verdicts(ck, cases, st, proof_ok, failing):
     ck.cov['values_compared'] = st.n_values
     ck.cov['oracle'] = dict(sorted(st.oracle.items()))
     ck.cov['cases_skipped'] = {k: len(v) for k, v in problems.items()}
-    ck.cov['distinct_nontrivial'] = len([c for c in cases if not c.problem])
-    ck.cov['rule'] = 'one case = one generated NL model x acceptance subset x scripted solver answer x call sequence, converted by the real driver'
+    distinct = set()
+    for c in cases:
+        if c.problem or getattr(c, 'graph_error', None):
+            continue
+        if len(c.lg['entries']) < 3 or not c.flows:
+            continue
+        o = replay_obj(c)
+        distinct.add(hashlib.sha256(json.dumps([o['nl'], o['accept'], o['options'], o['script'], o['calls']], sort_keys=True).encode()).hexdigest())
+        if len(ck.cov['samples']) < 3:
+            ck.sample({'nl_head': o['nl'].split('\n')[:3], 'accept': c.accept, 'options': c.options, 'script': o['script'], 'calls': o['calls'][:3],
+                       'link_entries': len(c.lg['entries']), 'link_types': sorted(set(e['t'] for e in c.lg['entries'])),
+                       'transfers': [(f.name, f.dir, f.kind) for f in c.flows], 'row_matches': [list(m) for m in getattr(c, 'matches', [])]})
+    ck.cov['distinct_nontrivial'] = len(distinct)
+    ck.cov['rule'] = ('one case = one generated NL model x acceptance subset x options x scripted solver answer x call sequence, converted by the real driver; '
+                      'counted as non-trivial when the real link graph has >= 3 entries and >= 1 transfer was compared; distinct by hash of (NL text, acceptance, options, answer, calls)')
     ck.log('cases=%d skipped=%s flows compared=%d identical=%d' % (len(cases), ck.cov['cases_skipped'], st.n_flows, n_ok))
     for k, v in problems.items():
         ck.log('skipped example (%s): %s' % (k, v[0].problem[:300]))
